@@ -1,4 +1,5 @@
 import Apko.Model.Cache
+import Apko.Model.CacheGlue
 /-! line-protocol handlers for corr:cache (C19)
 
 `cache-seq \t n \t revs \t builds \t goState \t goOutcomes`
@@ -20,6 +21,24 @@ a regular incomplete file under a final name (impossible for the repaired builde
 `cache-conc \t expect \t goState \t goOutcomes \t offline \t revs` — oracle only (concurrent recovery builds,
 then one offline build).  `cache-race \t expect \t goState \t goOutcomes \t revs` — oracle only (a build paused
 inside `cachedPackage` while another one populates the cache).  `cache-plant \t kind \t want \t online \t offline` — planted entries: both outcomes must be `want` or `err`.
+
+`cache-glue \t keys \t history \t goDir \t goOutcomes \t goCwd` — histories around the glue of the cache, executed
+on `Model/CacheGlue.lean` (`cfgReal`):
+* `keys`     `dir.etag,dir.etag,…` key `i` (URL `i+1`, body `i`; key 0 signs the index) lives in entry directory
+             `dir` (≥ 1) and is served with ETag number `etag`; the index is URL 0, directory 0, revision `r` is
+             body and ETag `100+r`
+* `history`  processes separated by `|`, the builds of a process by `;`, a build is `mode:rev:k+k+…:fault` with
+             mode `own` (a fresh memo-bearing cache object per build: what the CLI passes), `default`
+             (`options.Default.SharedCache`: one memo-less object per process), `none` (no cache), `off` (offline),
+             `rev` the index revision the repository serves during the build, the keyring in request order, and
+             `fault` = `-` | `i` (the connection is cut inside the index body) | `<k>` (inside the body of key `k`)
+* `goDir`, `goOutcomes`, `goCwd`  the etag entries and temp files the real code left (tokens `E<dir>.<etag>=L<body>`,
+             `T<dir>=<body|P>`), the outcome of every build (`ok:<rev>:<k>=<content>+…`, keys by number, or `err`),
+             and whatever appeared in the working directories of the processes (must be nothing)
+Answer: impl = the model's directory and outcomes (the outcome of an offline build that asks for a key whose entry
+directory is shared with another key is `sched`: which entry is the newest depends on the order in which the
+concurrent key downloads of earlier builds finished), verdict = the oracle on Go's output, class `F19d` iff the
+history contains such an offline build or a keyring with two keys of one directory under one ETag value.
 -/
 namespace Apko.Driver.Cache
 open Apko.Cache
@@ -162,7 +181,8 @@ def buildOnline (n : Nat) (revs : Revs) (sim : Sim) (hk gk fr : Cid) (budget : O
     | _, _ => finishBuild revs sim fs1 nt "err"
 
 def buildOffline (n : Nat) (revs : Revs) (sim : Sim) : Sim :=
-  let cands := sim.idxRevs.map Name.adv ++ sim.idxTemps
+  -- (fix F19e: `fetchOffline` ignores the unadvertised temp files of the directory)
+  let cands := sim.idxRevs.map Name.adv
   let (fs1, pr, _, _) := runSeg sim.fs (indexOffline cands) none
   match halted pr, revRead pr with
   | some true, some r =>
@@ -186,12 +206,13 @@ def tokenOk (t : String) : Bool :=
     match (t.drop 1).toString.splitOn "=" with
     | [k, d] => d == s!"LF{k}" || d == s!"RF{k}"   -- in particular not `LD`: a dangling link (`adv_present_resolves`)
     | _ => false
-  else true
+  else !t.startsWith "U=cwd:"   -- nothing is ever created in the working directory of a build
 
 def stateVerdict (goState : String) : Option String :=
   let toks := if goState.isEmpty then [] else goState.splitOn ","
   match toks.find? (fun t => !tokenOk t) with
-  | some t => some (if t.endsWith "=LD" then s!"advertised-entry-dangles:{t}" else s!"advertised-name-holds-other-content:{t}")
+  | some t => some (if t.startsWith "U=cwd:" then s!"file-created-in-working-directory:{t}"
+      else if t.endsWith "=LD" then s!"advertised-entry-dangles:{t}" else s!"advertised-name-holds-other-content:{t}")
   | none => none
 
 /-- `hit_has_signature` on the real directory: where the control and the data entry of a signed package
@@ -207,10 +228,11 @@ def depVerdict (revs : Revs) (goState : String) : Option String :=
 
 /-- expected outcomes: online not killed → the image of the revision served (or of the revision HEAD
 announced, when the repository changed between HEAD and GET); killed → `crash` (or that image when the
-marker lies beyond the build); offline → an error or the image of the revision the most recent online
-build asked for (never an older revision, never anything else) -/
-def outcomesVerdict (revs : Revs) (builds : List String) (outs : List String) : Option String :=
-  let rec go (bs : List String) (os : List String) (last : List String) (i : Nat) : Option String :=
+marker lies beyond the build); offline → an error or the image of the newest revision whose index is
+completely cached — the revision the model's `fetchOffline` selects (`impls`: the model's outcomes; by
+`offline_safe` that is the complete content of an advertised entry), never anything else -/
+def outcomesVerdict (revs : Revs) (builds : List String) (outs impls : List String) : Option String :=
+  let rec go (bs : List String) (os : List String) (ms : List String) (i : Nat) : Option String :=
     match bs, os with
     | [], [] => none
     | b :: bs', o :: os' =>
@@ -224,23 +246,197 @@ def outcomesVerdict (revs : Revs) (builds : List String) (outs : List String) : 
         let fr := (frs.head?.getD gk).toNat!
         let mismatch := (pkgsOf revs gk.toNat! ++ pkgsOf revs hk.toNat!).any fun p => (servedOf revs fr p).isSome
         if o == want || o == s!"ok:img{hk}" || (k != "-" && o == "crash") || (mismatch && o == "err") then
-          go bs' os' [want, s!"ok:img{hk}"] (i + 1)
+          go bs' os' ms.tail (i + 1)
         else some s!"build{i}:online:{o}:want:{want}"
       | _ =>
-        if o == "err" || last.contains o then go bs' os' last (i + 1)
-        else some s!"build{i}:offline:{o}:want:err-or-{last}"
+        let m := ms.head?.getD "err"
+        if o == "err" || (o == m && m.startsWith "ok:img" && m != "ok:img?") then go bs' os' ms.tail (i + 1)
+        else some s!"build{i}:offline:{o}:want:err-or-{m}"
     | _, _ => some "outcome-count"
-  go builds outs [] 0
+  go builds outs impls 0
+
+
+/-! ### `cache-glue`: histories over `Model/CacheGlue.lean` -/
+
+namespace Glue
+open Apko.CacheGlue
+
+structure GKey where
+  dir : Nat
+  etag : Nat
+
+structure GBuild where
+  mode : String
+  rev : Nat
+  keys : List Nat
+  fault : String
+
+def parseKeys (s : String) : List GKey :=
+  if s.isEmpty then [] else
+  (s.splitOn ",").filterMap fun e =>
+    match e.splitOn "." with
+    | [d, t] => some ⟨d.toNat!, t.toNat!⟩
+    | _ => none
+
+def parseBuild (s : String) : Option GBuild :=
+  match s.splitOn ":" with
+  | [m, r, ks, f] => some ⟨m, r.toNat!, if ks.isEmpty then [] else (ks.splitOn "+").map String.toNat!, f⟩
+  | _ => none
+
+def parseHistory (s : String) : List (List GBuild) :=
+  if s.isEmpty then [] else
+  (s.splitOn "|").map fun p => if p.isEmpty then [] else (p.splitOn ";").filterMap parseBuild
+
+def dirOfWorld (keys : List GKey) : Url → Dir := fun u =>
+  if u = 0 then 0 else ((keys[u - 1]?).map (·.dir)).getD 0
+
+def sortNat (l : List Nat) : List Nat := l.mergeSort (fun a b => decide (a ≤ b))
+
+/-- the content of a key file as the harness names it: the number of the key whose bytes it holds, `P` for a
+truncated key -/
+def contentTok (r : Body × Bool) : String := if r.2 then toString r.1 else "P"
+
+/-- the outcome of a build from what its requests returned: an error of any request fails the build; the index
+must be complete (gzip trailer, signature) and the file of the signing key (key 0) must hold that key -/
+def outcomeOf (keys : List Nat) (kres : List Res) (ires : Res) : String :=
+  if kres.any (·.isNone) then "err" else
+  match ires with
+  | none => "err"
+  | some (_, false) => "err"
+  | some (ib, true) =>
+    let pairs := (keys.zip kres).filterMap fun (k, r) => r.map fun x => (k, contentTok x)
+    if pairs.any (fun p => p.1 = 0 && p.2 != "0") then "err" else
+    let sorted := (sortNat keys).filterMap fun k => (pairs.find? (·.1 = k)).map fun p => s!"{p.1}={p.2}"
+    s!"ok:{ib - 100}:" ++ "+".intercalate sorted
+
+def identityOutcome (rev : Nat) (keys : List Nat) : String :=
+  s!"ok:{rev}:" ++ "+".intercalate ((sortNat keys).map fun k => s!"{k}={k}")
+
+/-- an offline build whose answer depends on the order in which earlier concurrent key downloads finished: it
+asks for a key whose entry directory is shared with another key (finding F19d) -/
+def schedDependent (world : List GKey) (b : GBuild) : Bool :=
+  b.mode == "off" && b.keys.any fun k =>
+    (List.range world.length).any fun j => j != k && (world[j]?.map (·.dir)) == (world[k]?.map (·.dir))
+
+/-- a keyring with two keys of one directory under one ETag value (finding F19d) -/
+def sameEtagPair (world : List GKey) (b : GBuild) : Bool :=
+  b.mode != "none" && b.keys.any fun k => b.keys.any fun j =>
+    j != k && (world[j]?.map fun x => (x.dir, x.etag)) == (world[k]?.map fun x => (x.dir, x.etag))
+
+structure GSim where
+  st : St := {}
+  nextCache : Nat := 1
+  outs : List String := []
+
+def runBuild (cfg : Cfg) (world : List GKey) (sim : GSim) (b : GBuild) : GSim :=
+  -- the repository serves revision `rev` during this build
+  let st := if sim.st.cur 0 = some (100 + b.rev, 100 + b.rev) then sim.st
+            else step cfg sim.st (.publish 0 (100 + b.rev) (100 + b.rev))
+  let cutOf := fun (k : Nat) => b.fault == toString k
+  if b.mode == "none" then
+    let kres := b.keys.map fun k => direct st (k + 1)
+    { sim with st := st, outs := sim.outs ++ [outcomeOf b.keys kres (direct st 0)] }
+  else if b.mode == "off" then
+    let kres := b.keys.map fun k => fetchOffline cfg st (k + 1)
+    let out := if schedDependent world b then "sched" else outcomeOf b.keys kres (fetchOffline cfg st 0)
+    { sim with st := st, outs := sim.outs ++ [out] }
+  else
+    let (c, memo, next) := if b.mode == "default" then (0, false, sim.nextCache) else (sim.nextCache, true, sim.nextCache + 1)
+    let (st1, kres) := fetchAll cfg c memo (b.keys.map fun k => (k + 1, cutOf k)) st
+    -- the keyring is initialised first (all entries are requested, concurrently); the index only after that
+    if kres.any (·.isNone) then { st := st1, nextCache := next, outs := sim.outs ++ ["err"] }
+    else
+      let r := fetch cfg st1 c memo 0 (b.fault == "i")
+      { st := r.1, nextCache := next, outs := sim.outs ++ [outcomeOf b.keys kres r.2] }
+
+def runProc (cfg : Cfg) (world : List GKey) (sim : GSim) (p : List GBuild) : GSim :=
+  let sim := p.foldl (runBuild cfg world) sim
+  { sim with st := step cfg sim.st .exit }
+
+def dirTokens (st : St) : List String :=
+  st.files.flatMap fun f =>
+    match f.etag with
+    | some e => [s!"E{f.dir}.{e}=L{contentTok (f.body, f.complete)}", s!"T{f.dir}={contentTok (f.body, f.complete)}"]
+    | none => [s!"T{f.dir}={contentTok (f.body, f.complete)}"]
+
+def initial (cfg : Cfg) (world : List GKey) : St :=
+  (List.range world.length).foldl (fun st i =>
+    match world[i]? with
+    | some k => step cfg st (.publish (i + 1) k.etag i)
+    | none => st) {}
+
+/-- the oracle on one etag entry of the real directory: it must hold exactly the body served under that ETag
+for a URL of that directory -/
+def entryOk (world : List GKey) (t : String) : Bool :=
+  if t.startsWith "E" then
+    match (t.drop 1).toString.splitOn "=" with
+    | [de, kd] =>
+      match de.splitOn "." with
+      | [d, e] =>
+        if d == "0" then kd == s!"L{e}" && e != "?"
+        else (List.range world.length).any fun i =>
+          match world[i]? with
+          | some k => toString k.dir == d && toString k.etag == e && kd == s!"L{i}"
+          | none => false
+      | _ => false
+    | _ => false
+  else true
+
+/-- online: the cache-less image of the repository state the build ran against (a build with a cut
+connection may fail instead); offline: an error, or what the model's offline build gives (`impls`; by
+`offline_authentic_partial` complete bodies the server served under the very URLs asked for) — where the
+model makes no prediction (`sched`) the cache-less image of a revision an earlier build brought into the cache -/
+def outcomesVerdict (builds : List GBuild) (outs impls : List String) : Option String :=
+  let rec go (bs : List GBuild) (os : List String) (ms : List String) (seen : List Nat) (i : Nat) : Option String :=
+    match bs, os with
+    | [], [] => none
+    | b :: bs', o :: os' =>
+      let want := identityOutcome b.rev b.keys
+      let m := ms.head?.getD "err"
+      if b.mode == "off" then
+        if o == "err" || (m != "sched" && o == m && seen.any (fun r => o == identityOutcome r b.keys))
+            || (m == "sched" && seen.any (fun r => o == identityOutcome r b.keys)) then go bs' os' ms.tail seen (i + 1)
+        else some s!"build{i}:offline:{o}:want:err-or-{if m == "sched" then "cache-less-image-of-a-cached-revision" else m}"
+      else
+        let seen' := if b.mode != "none" && b.fault != "i" then b.rev :: seen else seen
+        if o == want || (b.fault != "-" && o == "err") then go bs' os' ms.tail seen' (i + 1)
+        else some s!"build{i}:{b.mode}:{o}:want:{want}"
+    | _, _ => some "outcome-count"
+  go builds outs impls [] 0
+
+def handle (keys history goDir goOutcomes goCwd : String) : String :=
+  let world := parseKeys keys
+  let procs := parseHistory history
+  let cfg := cfgReal (dirOfWorld world)
+  let sim := procs.foldl (runProc cfg world) { st := initial cfg world }
+  let toks := (dirTokens sim.st).mergeSort (fun a b => decide (a ≤ b))
+  let impl := ",".intercalate toks ++ "|" ++ ",".intercalate sim.outs
+  let gtoks := if goDir.isEmpty then [] else goDir.splitOn ","
+  let outs := if goOutcomes.isEmpty then [] else goOutcomes.splitOn ","
+  let builds := procs.flatten
+  let verdict :=
+    if !goCwd.isEmpty then s!"fail:file-created-in-working-directory:{goCwd}"
+    else match gtoks.find? (fun t => !entryOk world t) with
+      | some t => s!"fail:advertised-entry-is-not-the-body-served-under-its-etag:{t}"
+      | none =>
+        match outcomesVerdict builds outs sim.outs with
+        | some w => "fail:" ++ w
+        | none => "pass"
+  let cls := if builds.any (fun b => schedDependent world b || sameEtagPair world b) then "F19d" else "unlisted"
+  impl ++ "\t" ++ verdict ++ "\t" ++ cls
+
+end Glue
 
 def handle (args : List String) : Option String :=
   match args with
+  | ["cache-glue", keys, history, goDir, goOutcomes, goCwd] => some (Glue.handle keys history goDir goOutcomes goCwd)
   | ["cache-seq", n, revs, builds, goState, goOutcomes] =>
     let revs := parseRevs revs
     let bs := if builds.isEmpty then [] else builds.splitOn ";"
     let sim := bs.foldl (runBuild n.toNat! revs) {}
     let impl := stateString revs sim ++ "|" ++ ",".intercalate sim.outcomes
     let outs := if goOutcomes.isEmpty then [] else goOutcomes.splitOn ","
-    let verdict := match stateVerdict goState, depVerdict revs goState, outcomesVerdict revs bs outs with
+    let verdict := match stateVerdict goState, depVerdict revs goState, outcomesVerdict revs bs outs sim.outcomes with
       | some w, _, _ => "fail:" ++ w
       | none, some w, _ => "fail:" ++ w
       | none, none, some w => "fail:" ++ w
